@@ -209,6 +209,14 @@ def translate_site(src_root, site):
             if site.get("pick") is not None: hits = [h for h in hits if site["pick"] in ast.unparse(h)]
         if len(hits) != 1: raise Unsupported(f"{len(hits)} places match `{where}` in {site['fn']} (expected one)")
         body = f"  {depth(hits[0])}"; rty = "Nat"
+    elif mode == "callkw":
+        # the one call of `callee` in the function: how many of its arguments are not the expected ones — positional arguments other than
+        # the listed texts, keyword arguments outside the allowed names (an option that changes what is written / how a selector is read)
+        hits = [n for n in ast.walk(fn) if isinstance(n, ast.Call) and ast.unparse(n.func) == site["callee"]]
+        if len(hits) != 1: raise Unsupported(f"{len(hits)} calls of `{site['callee']}` in {site['fn']} (expected one)")
+        c = hits[0]
+        count = sum(1 for k in c.keywords if k.arg is None or k.arg not in site["allowed"]) + (0 if [ast.unparse(a) for a in c.args] == site["args"] else 1)
+        body = f"  {count}"; rty = "Nat"
     elif mode == "once":
         # a component builds its generator factory once, when it is constructed, and every call draws from what that factory returns: the
         # number of departures — the attribute defined as a method / property, not assigned exactly once at the top level of `__init__`
@@ -435,6 +443,9 @@ SITES["C19"] += [
                     ("stochastic/_ranker.py", "StochasticTopNRanker", "stochasticRankerFactoryDepartures"))
 ]
 
+# the dataset's tables are written as they are (no option that coerces or truncates values); a selector is read as given (no forced type)
+SITES["C16"] += [dict(file="data/items.py", cls="ItemList", fn="__getitem__", mode="callkw", callee="np.asarray", args=["sel"], allowed=[], lean="selectorConversionOptions", atoms={})]
+
 # `ranks()`: an unordered list has no ranks — whatever is cached; an ordered one returns the stored ranks, computing 1…n when none are stored
 SITES["C16"] += [
     dict(file="data/items.py", cls="ItemList", fn="ranks", mode="fn", lean="ranksDispatch",
@@ -478,6 +489,7 @@ SITES["C15"] = [
     dict(file="data/items.py", cls="ItemList", fn="__setstate__", mode="branch", select="'numbers' in state", lean="restoreNumbersBranch",
          atoms={"'numbers' in state": ("hasNumbers", B)}),
 ]
+SITES["C15"] += [dict(file="data/container.py", cls="DataContainer", fn="save", mode="callkw", callee="write_table", args=["table", "path / f'{name}.parquet'"], allowed=["compression"], lean="writeTableExtraOptions", atoms={})]
 
 # identifiers ↔ numbers (C01): unknown identifiers are reported, never mapped to some row; negative numbers never index from the end
 SITES["C01"] += [
